@@ -42,18 +42,21 @@ pub fn stress(path: &str) {
         trees.iter().map(|(_, n)| crate::canon::result_text(&n.eval_with_context(&*ctx))).collect();
     let sequential = Arc::new(sequential);
     let threads = 16;
-    let rounds = 8;
+    let rounds = 40;
+    // all threads evaluate the SAME tree at the same time (barrier per tree), `rounds` times each
+    let barrier = Arc::new(std::sync::Barrier::new(threads));
     let mut handles = vec![];
-    for t in 0..threads {
-        let (trees, ctx, sequential) = (trees.clone(), ctx.clone(), sequential.clone());
+    for _t in 0..threads {
+        let (trees, ctx, sequential, barrier) = (trees.clone(), ctx.clone(), sequential.clone(), barrier.clone());
         handles.push(std::thread::spawn(move || {
             let mut bad = vec![];
-            for r in 0..rounds {
-                for k in 0..trees.len() {
-                    let i = (k * 7 + t * 13 + r) % trees.len();
+            for i in 0..trees.len() {
+                barrier.wait();
+                for _ in 0..rounds {
                     let got = crate::canon::result_text(&trees[i].1.eval_with_context(&*ctx));
                     if got != sequential[i] {
                         bad.push(format!("{}\t{}\t{}", trees[i].0, sequential[i], got));
+                        break;
                     }
                 }
             }
